@@ -138,6 +138,9 @@ func (e *Engine) callFn(fr *frame, fn Value, args []Value, in ssa.Value) Value {
 			}
 			return h(e, fr, args)
 		}
+		if f.Pkg != nil && f.Pkg.Pkg.Path() == "math/big" && f.Signature.Recv() != nil {
+			unsupported("math/big method without an engine model: %s", f.String())
+		}
 		if f.Pkg != nil {
 			if h, ok := pkgStubs[f.Pkg.Pkg.Path()]; ok {
 				e.StubsSeen[f.String()] = true
@@ -172,6 +175,21 @@ func (e *Engine) callFn(fr *frame, fn Value, args []Value, in ssa.Value) Value {
 
 func (e *Engine) builtin(fr *frame, b *ssa.Builtin, args []Value, in ssa.Value) Value {
 	switch b.Name() {
+	case "clear":
+		switch x := args[0].(type) {
+		case Slice:
+			for i := range x.a {
+				store(&x.a[i], zeroLike(x.a[i]))
+			}
+			return nil
+		case *MapV:
+			if x != nil {
+				x.m = map[interface{}]Value{}
+				x.keys = map[interface{}]Value{}
+				x.ord = nil
+			}
+			return nil
+		}
 	case "close":
 		c, _ := args[0].(*ChanV)
 		if c == nil {
@@ -327,3 +345,39 @@ func (e *Engine) builtin(fr *frame, b *ssa.Builtin, args []Value, in ssa.Value) 
 }
 
 var _ = fmt.Sprint
+
+// zeroLike: the zero value with the shape of v (used by the clear builtin)
+func zeroLike(v Value) Value {
+	switch x := v.(type) {
+	case Term:
+		if x.W == 0 {
+			return Bool(false)
+		}
+		return BV(x.W, 0)
+	case string, SymStr:
+		return ""
+	case Struct:
+		out := make(Struct, len(x))
+		for i := range x {
+			out[i] = zeroLike(x[i])
+		}
+		return out
+	case Array:
+		out := make(Array, len(x))
+		for i := range x {
+			out[i] = zeroLike(x[i])
+		}
+		return out
+	case *Value:
+		return (*Value)(nil)
+	case Iface:
+		return Iface{}
+	case Slice:
+		return Slice{}
+	case *MapV:
+		return (*MapV)(nil)
+	case *ChanV:
+		return (*ChanV)(nil)
+	}
+	return nil
+}
